@@ -19,6 +19,7 @@ from liquid2.builtin import identifier_str
 from liquid2.builtin import parse_parameters
 from liquid2.builtin import parse_positional_and_keyword_arguments
 from liquid2.builtin import parse_string_or_identifier
+from liquid2.exceptions import LiquidError
 from liquid2.exceptions import LiquidInterrupt
 from liquid2.exceptions import LiquidSyntaxError
 from liquid2.undefined import Undefined
@@ -38,6 +39,7 @@ class Macro:
 
     args: dict[str, Parameter]
     block: BlockNode
+    template_name: str = ""
 
 
 @dataclass(kw_only=True, slots=True)
@@ -84,7 +86,9 @@ class MacroNode(Node):
         # Macro tags don't render or evaluate anything, just store their arguments list
         # and block on the render context so it can be called later by a `call` tag.
         context.tag_namespace["macros"][self.name] = Macro(
-            args=self.args, block=self.block
+            args=self.args,
+            block=self.block,
+            template_name=context.template.full_name(),
         )
         return 0
 
@@ -191,6 +195,11 @@ class CallNode(Node):
 
         try:
             return macro.block.render(macro_context, buffer)
+        except LiquidError as err:
+            # The macro can have been defined in another template.
+            if not err.template_name:
+                err.template_name = macro.template_name
+            raise
         except LiquidInterrupt as err:
             # A macro body is not part of the loop it is called from.
             raise LiquidSyntaxError(f"unexpected '{err}'", token=self.token) from err
@@ -234,6 +243,11 @@ class CallNode(Node):
 
         try:
             return await macro.block.render_async(macro_context, buffer)
+        except LiquidError as err:
+            # The macro can have been defined in another template.
+            if not err.template_name:
+                err.template_name = macro.template_name
+            raise
         except LiquidInterrupt as err:
             # A macro body is not part of the loop it is called from.
             raise LiquidSyntaxError(f"unexpected '{err}'", token=self.token) from err
